@@ -64,33 +64,29 @@ Theorem C07_pqmr_crash_prefix_exact : forall (bl : list (N * bitset)) (k : nat),
 Proof. exact pqmr_crash_prefix_exact. Qed.
 Print Assumptions C07_pqmr_crash_prefix_exact.
 
-(* ... and what the searcher does with it, per block b of a segment with nblocks searchable blocks whose meta records
-   NumBlocks = recorded (Searcher.getBlocks: stored bits for the blocks the file reports; raw search for the others
-   unless the number of blocks taken from the file equals NumBlocks).
-   FULL STATEMENT: forall bl truth k recorded nblocks b, wf_blocks bl = true -> (bits written = truth) ->
-     seg_answer (read_pqmr (firstn k (file_of bl))) recorded nblocks truth b = truth b.
-   It FAILS on the faithful model (and on the code: known finding persistent_query_skips_block_without_match_results):
-   the running .sfm records the INDEX of the last flushed block, so between the .sfm rename of flush b and the end of
-   its pqmr record the file reports b blocks, NumBlocks = b, and block b is not searched at all.
-   Proved: the guarded variant (guard = the exact boolean condition) and the refutation with that crash state. *)
-Theorem C07_pqmr_seg_answer_guarded : forall (bl : list (N * bitset)) (truth : N -> list N) (k : nat) (recorded nblocks : N),
+(* ... and what the searcher does with it (Searcher.getBlocks: stored bits for the blocks the file reports; raw search
+   for the others unless the number of blocks taken from the file equals the number of block summaries of the segment).
+   FULL STATEMENT: for every byte prefix of the writer's appends and every block b of a segment with nblocks blocks, the
+   persistent query returns exactly the records of b that match. *)
+Theorem C07_pqmr_seg_answer_after_crash : forall (bl : list (N * bitset)) (truth : N -> list N) (k : nat) (nblocks : N),
   wf_blocks bl = true ->
   (forall b bs, In (b, bs) bl -> set_bits bs = truth b) ->
-  forall b, answer_guard (read_pqmr (firstn k (file_of bl))) recorded nblocks b = true ->
-            seg_answer (read_pqmr (firstn k (file_of bl))) recorded nblocks truth b = truth b.
-Proof. exact pqmr_seg_answer_guarded. Qed.
-Print Assumptions C07_pqmr_seg_answer_guarded.
+  forall b, (b < nblocks)%N -> seg_answer (read_pqmr (firstn k (file_of bl))) nblocks truth b = truth b.
+Proof. exact pqmr_seg_answer_after_crash. Qed.
+Print Assumptions C07_pqmr_seg_answer_after_crash.
 
-Theorem C07_pqmr_seg_answer_refuted :
+(* The rule before the fix (known/C07.json: persistent_query_skips_block_without_match_results, fixed) compared the count
+   with SegMeta.NumBlocks; a running .sfm records the INDEX of the last flushed block there, so between the .sfm rename of
+   flush b and the end of its pqmr record the file reports b blocks, NumBlocks = b, and block b was not searched. *)
+Theorem C07_pqmr_numblocks_rule_refuted :
   let bl := [(0, (1, [1])); (1, (2, [2]))]%N in
   let truth := fun b : N => if N.eqb b 0 then [0%N] else [1%N] in
   wf_blocks bl = true /\
   (forall b bs, In (b, bs) bl -> set_bits bs = truth b) /\
-  seg_answer (read_pqmr (firstn 20 (file_of bl))) 1%N 2%N truth 1%N = [] /\ truth 1%N = [1%N] /\
-  answer_guard (read_pqmr (file_of bl)) 1%N 2%N 1%N = true /\
-  answer_guard (read_pqmr (firstn 20 (file_of bl))) 2%N 2%N 1%N = true.
-Proof. exact pqmr_seg_answer_refuted. Qed.
-Print Assumptions C07_pqmr_seg_answer_refuted.
+  seg_answer_numblocks 1%N (read_pqmr (firstn 20 (file_of bl))) 2%N truth 1%N = [] /\
+  seg_answer (read_pqmr (firstn 20 (file_of bl))) 2%N truth 1%N = [1%N] /\ truth 1%N = [1%N].
+Proof. exact pqmr_numblocks_rule_refuted. Qed.
+Print Assumptions C07_pqmr_numblocks_rule_refuted.
 
 (* the file without a crash reads back as written *)
 Theorem C07_pqmr_roundtrip : forall bl, wf_blocks bl = true -> read_pqmr (file_of bl) = Some bl.
